@@ -25,7 +25,12 @@
 #define LOCALS u64 shape[2], idx[4] = {0}, ls[4] = {0}, es[4] = {0}, ld = 0, ed = 0, ex[4] = {0}; u32 data[CELLS], p[8] = {0}, lv = 0, ev = 0; \
   in_shape(shape, 2); in_data(data, MAXE*MAXE); u64 n0 = shape[0], n1 = shape[1], numel = n0 * n1; (void)numel;
 #define ARGS shape, data, p, idx, nd, ls, &ld, &lv, es, &ed, &ev
+/* shape: symbolic 1..MAXE per extent, or a per-query constant (SH0,SH1) when the symbolic-shape query does not return */
+#ifdef SH0
+static void in_shape(u64* s, int n){ (void)n; s[0] = in_u64(SH0, SH0); s[1] = in_u64(SH1, SH1); }
+#else
 static void in_shape(u64* s, int n){ for (int i = 0; i < n; i++) s[i] = in_u64(1, MAXE); }
+#endif
 static void in_data(u32* d, int n){ for (int i = 0; i < n; i++) d[i] = in_any32(); }
 /* index of length nd inside ex (entries beyond nd are 0) */
 static void in_index(u64* idx, const u64* ex, u64 nd, u64 maxidx){ for (u64 i = 0; i < 4; i++){ idx[i] = i < nd ? in_u64(0, maxidx) : 0; ASSUME(i < nd ? idx[i] < ex[i] : 1); } }
@@ -41,7 +46,7 @@ static void check(int r, const u64* ex, u64 nd, const u64* ls, u64 ld, u32 lv, c
 static void in_perm2(u32* p){ i32 a = in_i32(0, 1); p[0] = (u32)a; p[1] = (u32)(1 - a); }
 
 /* ---- depth 1 ---- */
-#if RES == 1
+#if RES != 0
 void h_front_transpose(void){ LOCALS; u64 nd = 2; in_perm2(p);
   ex[0] = shape[p[0]]; ex[1] = shape[p[1]]; in_index(idx, ex, nd, MAXE - 1);
   int r = KN(k_front_transpose)(ARGS); check(r, ex, nd, ls, ld, lv, es, ed, ev); REACHED(); }
